@@ -95,3 +95,24 @@ reg("C10", "simnet", "exploration",
     "request with the right target, Host rule, Upgrade/Connection/Version, a key that is the base64 of exactly one fresh 16-byte OS draw, and options reflected exactly.",
     "Trusted: mc/ref/handshake.py parser, the websockets package as second opinion, the urandom recording shim.",
     "DESIGN.md section 6 C10")
+
+reg("C18", "simnet", "exploration",
+    "bounded-exhaustive enumeration of URL strings against a hand-written grammar (parse_url and real connect() on the simulated network) and of all address lists x outcomes",
+    "25920 URL strings (valid and malformed) + every port: parse_url tuple, ValueError with no network activity for invalid ones, resolver argument, TLS wrap iff wss, "
+    "request target; every address list of length 1..4 over {accept, refused, unreachable, other} x user socket option x timeout: order, fall-through, last error, "
+    "options/timeout applied to every socket before connect, no socket leak.",
+    "Trusted: mc/ref/url.py grammar; simulated resolver/sockets; TLS simulated (wrap request recorded).",
+    "DESIGN.md section 6 C18")
+reg("C19", "simnet", "exploration",
+    "bounded-exhaustive enumeration of proxy configurations: exemption decisions over a label alphabet and all CIDR prefix lengths, and connect() routing / CONNECT bytes on the simulated network",
+    "All hosts of 1..3 labels over {a,b,ab} and 3 IPv4 addresses x no_proxy lists (every host, .suffix, '*', every prefix length 0..32) x 4 sources; "
+    "proxy option x 16 environment subsets x scheme x exemption source: the dial goes to the proxy iff configured and not exempt, CONNECT bytes exact incl. Basic "
+    "credentials, progress only on 200, TLS and the WebSocket request through the tunnel addressed to the origin; 12 proxy replies.",
+    "Trusted: the reference exemption rule in mc/props/c19.py; os.environ is set/cleared per case.",
+    "DESIGN.md section 6 C19")
+reg("C20", "explore", "model_checking",
+    "explicit-state search over histories of Set-Cookie responses (state = process-wide jar snapshot) with the Cookie header probed for every target in every new state",
+    "All histories up to depth 2/3 (72 responses) and 3/4 (24 responses) through real handshakes; in each reachable jar state the Cookie header sent to 7 targets "
+    "(domain, upper-case, subdomains, look-alikes, other) with and without a caller cookie equals the reference jar's answer.",
+    "Trusted: reference jar (dict) in mc/props/c20.py; http.cookies parsing is part of the code under test.",
+    "DESIGN.md section 6 C20")
